@@ -25,6 +25,7 @@ META = {
 
 def check(ctx):
     dispatch.exhaustive(ctx)
+    dispatch.rejections(ctx)
     dispatch.consume(ctx, "emu_mps.mps_backend_impl.MPSBackendImpl", ["__init__", "init"],
                      {"hamiltonian type": {"hamiltonian_type"}, "level count": {"dim", "eigenstates"}})
     dispatch.consume(ctx, "emu_sv.sv_backend_impl.SVBackendImpl", ["__init__"],
